@@ -29,10 +29,11 @@
    four describe what lance does today (deviations from the intended meaning
    above, found by this check; see Judge):
      and-matched-on-some-terms / indexed     AndDropsAbsentTerm: an AND match drops the terms that
-                                             do not occur in an index partition's vocabulary
+     must-not-and-matched-on-some-terms      do not occur in an index partition's vocabulary
      and-matched-on-some-terms / unindexed   FlatAndIsOr: rows of not-yet-indexed fragments are
                                              matched with OR semantics whatever the operator
      phrase-missed / unindexed               PhraseSkipsUnindexed: phrase queries only consult the index
+     must-not-phrase-missed / unindexed
      missed-beside-repeated-term / unindexed FlatScorerCountsOccurrences: the scorer of not-yet-indexed
      must-not-missed-beside-repeated-term    rows counts a repeated token once per occurrence; the
                                              idf turns negative and rows with score <= 0 are dropped
@@ -96,12 +97,20 @@ Judge(T, ever, q, limit, R) ==
         IF q[1] = "bool" /\ w = "unindexed" /\ repeats
            /\ (\A k \in S : \E i \in 1..Len(q[4]) : Matches(q[4][i], rowOf(k).doc))
              THEN <<"must-not-missed-beside-repeated-term", w>>
+        ELSE IF q[1] = "bool" /\ w = "unindexed"
+                /\ (\A k \in S : \E i \in 1..Len(q[4]) : HasKind(q[4][i], "phrase") /\ Matches(q[4][i], rowOf(k).doc))
+             THEN <<"must-not-phrase-missed", w>>
         ELSE IF HasKind(q, "match-and") /\ (\A k \in S : TokensOf(rowOf(k).doc) \cap Terms(q) # {})
              THEN <<"and-matched-on-some-terms", w>>
         ELSE IF HasKind(q, "phrase") /\ (\A k \in S : TokensOf(rowOf(k).doc) \cap Terms(q) # {})
              THEN <<"phrase-matched-out-of-sequence", w>>
         ELSE <<"extra-rows", w>>
-      missingClass(w) == IF HasKind(q, "phrase") THEN <<"phrase-missed", w>>
+      \* an AND clause under must_not that would exclude the row if one of its terms were ignored
+      andOvermatch(k) == q[1] = "bool" /\ \E i \in 1..Len(q[4]) :
+                            /\ Kind(q[4][i]) = "match-and" /\ ~Matches(q[4][i], rowOf(k).doc)
+                            /\ TokensOf(rowOf(k).doc) \cap SeqSet(q[4][i][2]) # {}
+      missingClass(w) == IF \A k \in part(M \ ks, w) : andOvermatch(k) THEN <<"must-not-and-matched-on-some-terms", w>>
+                         ELSE IF HasKind(q, "phrase") THEN <<"phrase-missed", w>>
                          ELSE IF w = "unindexed" /\ repeats THEN <<"missed-beside-repeated-term", w>>
                          ELSE <<"missed-rows", w>>
       extras(clause) ==
